@@ -31,7 +31,9 @@ public:
     {
         // preallocate to avoid reallocations
         header_buffer_.need(64);
+#ifndef OVM_VERIF_HOOKS // verification builds skip the 100 MB reservation (WriteBuffer grows on demand)
         chunk_buffer_.need(1024*1024*100);
+#endif
     }
     WriteResult write_file();
 private:
